@@ -3,6 +3,7 @@ package main
 import (
 	"go/ast"
 	"go/constant"
+	"go/token"
 	"go/types"
 	"sort"
 	"strings"
@@ -16,7 +17,7 @@ func init() {
 			"blanks can reach the file; (line-format) the two format strings of Encode differ only by the tab-separated message, name/e-mail/time/zone are laid out as '%s <%s> %d %c%02d%02d', and every separator byte of the format " +
 			"(space, '<', '>', tab, newline) is one the decoder splits on; (append-only) DotGit.ReflogWriter opens the log with O_APPEND|O_CREATE and without O_TRUNC and the filesystem storer writes through it. " +
 			"(zone-sign-whole-offset) the decoder negates the combined hours-and-minutes offset on the edge that tests the sign character (or negates the minutes under a test of the sign character when the sign is parsed with the hours); " +
-			"taking the minutes' sign from the parsed hours, or leaving them unsigned, is reported; other shapes are reported as not decided. Not decided: that git lists the same values; identities containing '<', '>' or line breaks.",
+			"taking the minutes' sign from the parsed hours, or leaving them unsigned, is reported; other shapes are reported as not decided. (identity-without-delimiters) Encode uses Signature.Name and Signature.Email only as arguments of a function of the package that handles '<', '>' and newline (found and fixed, 27ccd68: a raw `no<angle` was listed by git as name `no`, e-mail `angle <e@x`). Not decided: that git lists the same values.",
 		Assumptions: []string{"fmt and strings behave as documented"},
 		Run:         runC52,
 	})
@@ -146,6 +147,74 @@ func runC52(c *Ctx) {
 		c.Check(okAll && nRet > 0, r2, norm.Name()+":fields-join", norm.Decl.Pos(), "returns strings.Join(strings.Fields(msg), \" \"): no line break, tab or run of blanks survives")
 	}
 	c.Floor(r2, 2)
+
+	// identity-without-delimiters: name and e-mail sit between fixed delimiters of the line (SP, '<', '>', LF). git writes
+	// an identity without '<', '>' and newline (strbuf_addstr_without_crud); a raw name `a<b` shifts the e-mail field for
+	// every reader, a newline in it splits the entry in two. Encode uses Signature.Name and Signature.Email only as the
+	// argument of a function of the package whose body handles all three delimiter bytes.
+	const r2b = "identity-without-delimiters"
+	if sigT := p.lookupType(rl, "Signature"); sigT == nil {
+		c.Unresolved(r2b, rl+".Signature", enc.Decl.Pos(), "type not found")
+	} else {
+		handlesDelims := func(fi *FuncInfo) bool {
+			if fi == nil || fi.Decl.Body == nil {
+				return false
+			}
+			finfo := fi.Pkg.TypesInfo
+			seen := map[rune]bool{}
+			ast.Inspect(fi.Decl.Body, func(n ast.Node) bool {
+				e, ok := n.(ast.Expr)
+				if !ok {
+					return true
+				}
+				tv := finfo.Types[e]
+				if tv.Value == nil {
+					return true
+				}
+				switch tv.Value.Kind() {
+				case constant.Int:
+					if v, ok := constant.Int64Val(tv.Value); ok && (v == '\n' || v == '<' || v == '>') {
+						seen[rune(v)] = true
+					}
+				case constant.String:
+					for _, r := range constant.StringVal(tv.Value) {
+						if r == '\n' || r == '<' || r == '>' {
+							seen[r] = true
+						}
+					}
+				}
+				return true
+			})
+			return seen['\n'] && seen['<'] && seen['>']
+		}
+		for _, fname := range []string{"Name", "Email"} {
+			fv := fieldOf(sigT, fname)
+			if fv == nil {
+				c.Unresolved(r2b, rl+".Signature."+fname, enc.Decl.Pos(), "field not found")
+				continue
+			}
+			raw, clean := token.NoPos, 0
+			ast.Inspect(enc.Decl.Body, func(n ast.Node) bool {
+				if call, ok := n.(*ast.CallExpr); ok {
+					if fn := Callee(info, call); fn != nil && fn.Pkg() == enc.Pkg.Types && handlesDelims(p.FuncOf(fn)) {
+						for _, a := range call.Args {
+							if sel, ok := unparen(a).(*ast.SelectorExpr); ok && info.Uses[sel.Sel] == types.Object(fv) {
+								clean++
+							}
+						}
+						return false
+					}
+				}
+				if sel, ok := n.(*ast.SelectorExpr); ok && info.Uses[sel.Sel] == types.Object(fv) {
+					raw = sel.Pos()
+				}
+				return true
+			})
+			ok := !raw.IsValid() && clean > 0
+			c.Check(ok, r2b, enc.Name()+":"+fname, orPos(raw, enc.Decl.Pos()), orStr(ifStr(!ok, "Signature."+fname+" reaches the line as it is: a '<' or '>' in it moves the field boundaries for git and for the decoder (`no<angle <e@x>` reads as name `no`, e-mail `angle <e@x`), a newline splits the entry"),
+				"Signature."+fname+" is written through a function that removes '<', '>' and newline"))
+		}
+	}
 
 	// line-format
 	const r3 = "line-format"
